@@ -43,7 +43,7 @@ PROPS = {
     ),
     "C03": dict(
         title="Exactly min(T, confirmed) distinct winners",
-        lean=["LP.Props.C03base", "LP.Props.C03final", "LP.Props.C01reach", "LP.Props.C01reachV2", "LP.Props.C01reachV1", "LP.Props.C01reachG1", "LP.Props.C14reach", "LP.Props.C14reachG", "LP.Props.AllVariants2"],
+        lean=["LP.Props.C03base", "LP.Props.C03final", "LP.Props.C01reach", "LP.Props.C01reachV2", "LP.Props.C01reachV1", "LP.Props.C01reachG1", "LP.Props.C14reach", "LP.Props.C14reachG", "LP.Props.AllVariants2", "LP.Props.C03proceeds"],
         profiles=[("life", ALL_VARIANTS), ("fy", ["base", "guarV2"]), ("chunks", GUAR), ("topup", GUAR)],
         R={"ret": {"select", "distribute"}},
         D={"nrw": SELECT_EPS | {"claim"}, "status": SELECT_EPS, "cpay": SELECT_EPS, "last": SELECT_EPS, "addr.win": SELECT_EPS,
@@ -81,7 +81,7 @@ PROPS = {
     ),
     "C08": dict(
         title="Filtering keeps exactly the confirmed tickets",
-        lean=["LP.Props.C08", "LP.Props.C18reach"],
+        lean=["LP.Props.C08", "LP.Props.C18reach", "LP.Props.C03proceeds"],
         profiles=[("life", ALL_VARIANTS)],
         R={"ret": {"filter"}, "st": ({"filter"}, None)},
         D={k: {"filter"} for k in ["addr.range", "addr.tix", "last", "nrw", "batch"]},
@@ -156,7 +156,7 @@ PROPS = {
     ),
     "C18": dict(
         title="Allocation",
-        lean=["LP.Props.C18", "LP.Props.C18reach"],
+        lean=["LP.Props.C18", "LP.Props.C18reach", "LP.Props.C03proceeds"],
         profiles=[("alloc", ALL_VARIANTS), ("life", ALL_VARIANTS)],
         R={"st": (ALLOC_EPS, None), "ev": {"addTicketsV2"}},
         D={k: ALLOC_EPS for k in ["addr.range", "addr.tix", "last", "batch", "addr.uts", "addr.utsview"]},
